@@ -66,6 +66,11 @@ def shapes(tier):
         for e1, e2 in itertools.product(els[:5] if tier == 'quick' else els, repeat=2):
             for op in ('|', '^'):
                 exprs.append(([e1, e2], [op]))
+        # a union that is NOT one contiguous run of the character table: a low range and a far-away character (both orders)
+        spts = sorted(pts, key=ord)
+        lo_rng, far = El('range', spts[0], spts[1]), El('str', spts[-1])
+        exprs.append(([lo_rng, far], ['|']))
+        exprs.append(([far, lo_rng], ['|']))
         if tier != 'quick':
             for e1, e2, e3 in itertools.product(els[:4], repeat=3):
                 for o1, o2 in itertools.product('|^', repeat=2):
@@ -74,14 +79,21 @@ def shapes(tier):
             inner = els_[0].text()
             for o, e in zip(ops, els_[1:]):
                 inner += f" {o} {e.text()}"
-            for ctx in ('assign', 'component', 'size-after', 'size-before'):
+            for ctx in ('assign', 'component', 'size-after', 'size-before', 'size-inter-after', 'size-inter-before'):
                 if ctx in ('size-after', 'size-before') and (len(els_) > 1 or tier == 'quick' and els_[0].kind == 'str'):
+                    continue
+                if ctx.startswith('size-inter') and ('^' in ops or (tier == 'quick' and len(els_) > 1 and els_[0].kind == els_[1].kind == 'str')):
+                    # FROM and SIZE joined by an intersection inside ONE constraint (folded by fold_constraint_set)
                     continue
                 c = f"(FROM ({inner}))"
                 if ctx == 'size-after':
                     c = c + ' (SIZE (1..4))'
                 elif ctx == 'size-before':
                     c = '(SIZE (1..4)) ' + c
+                elif ctx == 'size-inter-after':
+                    c = f"(FROM ({inner}) ^ SIZE (1..4))"
+                elif ctx == 'size-inter-before':
+                    c = f"(SIZE (1..4) ^ FROM ({inner}))"
                 body = f"T ::= {ty} {c}" if ctx != 'component' else f"T ::= SEQUENCE {{ a {ty} {c} }}"
                 text = f"M DEFINITIONS AUTOMATIC TAGS ::= BEGIN {body} END"
                 role = ' '.join([els_[0].role()] + [f"{o} {e.role()}" for o, e in zip(ops, els_[1:])])
